@@ -24,16 +24,18 @@ META = {
             "(client events, records) pair is judged by TLC against AccessLogTrace.tla clause by clause.",
     "note": "Counting rule (DESIGN 7a): only dispatched calls are counted; on the socket family a stream call is one "
             "dispatch (one record when the stream ends).  'Outcome the client observed': an error the client never "
-            "read (socket init error of a header-less stream followed by close/cancel without a tick) and a cancel "
+            "read (socket init error of a header-less stream, or an HTTP first producer step failing behind a header, followed by close/cancel without a tick) and a cancel "
             "admit either status.  'Full message' = str(exc) recorded by the implementation is a substring of "
             "error_message.  Distinctness of stream_id between different streams is checked in the model only.  "
-            "Trusted: jsonschema; in-process falcon client for HTTP; the capture handler sees records in emission order.",
+            "HTTP is concretised on four deployments (warm worker, cache disabled, two workers sharing the key, one-entry "
+            "cache with an interleaved second stream, which is judged as a history of its own).  Trusted: jsonschema; in-process falcon client for HTTP; the capture handler sees records in emission order.",
     "technique": "TLC exhaustive exploration of a TLA+ state machine with a ghost log; TLC-enumerated histories replayed "
                  "on real pipe / in-process HTTP connections; TLC trace validation of (client events, access records)",
 }
 
 INVS = ["CountMatches", "DispatchOrder", "StatusMatches", "OneStreamId", "ErrorMessageNonEmpty", "ErrorMessageFull"]
 MSGS = ["noargs", "empty", "ascii", "unicode", "long", "multiline"]
+COLD = ["nocache", "two", "evict"]     # HTTP deployments in which continuations miss the call-state cache
 CLASSES_Q = ["ValueError"]
 CLASSES_T = ["ValueError", "KeyError", "RuntimeError", "UserStrError", "SessionLostError"]
 
@@ -91,11 +93,15 @@ def work(jobs: list[dict]) -> list[dict]:
     out = []
     for job in jobs:
         A.set_level(logging.DEBUG if job["debug"] else logging.INFO)
-        r = A.run_history(job["tr"], job["script"], job["cls"], job["text"], job["argc"], worlds)
+        r = A.run_history(job["tr"], job["script"], job["cls"], job["text"], job["argc"], worlds, deploy=job["deploy"])
         if r["hung"] and job["tr"] == "sock":
             r = A.run_history(job["tr"], job["script"], job["cls"], job["text"], job["argc"], worlds, timeout=25.0)
         recs, det = A.project(r["records"], r["errs"])
-        out.append({"events": r["events"], "recs": recs, "details": det, "hung": r["hung"],
+        other = None
+        if r.get("other"):
+            orecs, odet = A.project(r["other"]["records"], [])
+            other = {"script": r["other"]["script"], "events": r["other"]["events"], "recs": orecs, "details": odet}
+        out.append({"events": r["events"], "recs": recs, "details": det, "hung": r["hung"], "other": other,
                     "server_died": r["server_died"], "errs": [(k, len(t), t[:80]) for k, t in r["errs"]]})
     for w in worlds.values():
         w.close()
@@ -142,6 +148,10 @@ def run(ctx: Ctx) -> None:
                     "concrete exception class and message; non-trivial = distinct (history, transport, concrete message, "
                     "logger level) tuples executed; single-call histories all, two-call histories a seeded sample")
         ctx.assume("HTTP legs use the in-process falcon test client (make_sync_client)",
+                   "HTTP deployments: warm single worker (all histories); histories with a stream call also with the "
+                   "call-state cache disabled, on two workers sharing the token key with requests alternating, and on a "
+                   "one-entry cache with a second exchange stream interleaved turn by turn (quick: one of the three per "
+                   "history, round-robin; thorough: all three); records of all workers are judged together",
                    "socket-family transport = make_pipe_pair; records are collected after the serve loop ended",
                    "logger level alternates INFO (payload omitted) / DEBUG (request_data, state tokens present)",
                    "two-call histories: seeded sample of the TLC-enumerated set (quick 300, thorough 6000); in quick the "
@@ -155,8 +165,15 @@ def run(ctx: Ctx) -> None:
             reps = 1 if (quick or h["msg"] == "none" or len(h["script"]) == 2) else 2
             for rep in range(reps):
                 cls, text, argc = concretize(h["msg"], i + 7 * rep, ctx.rng, classes)
-                jobs.append({"tr": h["tr"], "msg": h["msg"], "script": h["script"], "cls": cls, "text": text, "argc": argc,
-                             "debug": (i + rep) % 2 == 1, "model": {"hist": h["hist"], "alog": h["alog"], "outc": h["outc"]}})
+                # HTTP deployments: besides the warm single worker, histories with a stream call are replayed where a
+                # continuation / exchange turn / cancel cannot find the call in the worker's call-state cache
+                deploys = ["warm"]
+                if h["tr"] == "http" and any(c["k"] in ("p", "ph", "x") for c in h["script"]):
+                    deploys += [COLD[(i + rep) % len(COLD)]] if quick else COLD
+                for dep in deploys:
+                    jobs.append({"tr": h["tr"], "msg": h["msg"], "script": h["script"], "cls": cls, "text": text,
+                                 "argc": argc, "deploy": dep, "debug": (i + rep + len(jobs)) % 2 == 1,
+                                 "model": {"hist": h["hist"], "alog": h["alog"], "outc": h["outc"]}})
         ctx.extra["model_phase_s"] = round(_t.time() - t0, 1)
         t1 = _t.time()
         shards = [[{k: v for k, v in j.items() if k != "model"} for j in jobs[k::nproc]] for k in range(nproc)]
@@ -174,20 +191,40 @@ def run(ctx: Ctx) -> None:
 
         traces = []
         for job, res in zip(jobs, results):
-            ctx.case([job["tr"], job["script"], job["cls"], job["text"][:48], len(job["text"]), job["argc"], job["debug"]])
+            ctx.case([job["tr"], job["deploy"], job["script"], job["cls"], job["text"][:48], len(job["text"]), job["argc"],
+                      job["debug"]])
             traces.append({"tr": job["tr"], "msg": job["msg"], "script": job["script"], "events": res["events"],
                            "recs": res["recs"]})
+        # the interleaved second stream of every "evict" replay is a history of its own (one exchange stream)
+        extra = [(job, res) for job, res in zip(jobs, results) if res.get("other") and not res["hung"]]
+        for job, res in extra:
+            o = res["other"]
+            traces.append({"tr": "http", "msg": "none", "script": o["script"], "events": o["events"], "recs": o["recs"]})
         for job, res in list(zip(jobs, results))[:: max(1, len(jobs) // 5)][:5]:
             ctx.sample({"transport": job["tr"], "script": job["script"], "exception": [job["cls"], job["text"][:60], len(job["text"])],
                         "client_events": res["events"], "access_records": res["recs"], "model_alog": job["model"]["alog"]})
         verdicts = tracecheck.validate(ctx, wd, "AccessLogTrace", traces, constants=consts(2, 3, MSGS),
                                        name="AccessLogTrace: (client events, access records) of every replay", chunk=4000)
         n_acc = 0
+        for (job, res), v in zip(extra, verdicts[len(jobs):]):
+            o = res["other"]
+            det = {"interleaved_with": job["script"], "script": o["script"], "client_events": o["events"],
+                   "access_records": o["recs"], "record_details": o["details"], "tlc": v}
+            if v["accepted"] and not v["bad"]:
+                ctx.traces_validated += 1
+            elif not v["accepted"]:
+                ctx.drift.append({"client_history_differs": True, "stream": "interleaved", **det})
+            for cl in v["bad"]:
+                if cl == "RecordsAlign":
+                    ctx.drift.append({"records_do_not_align": True, **det})
+                    continue
+                ctx.violation(cl, {"tr": "http", "deploy": "evict", "msg": "none", "text_len_class": "none",
+                                   "kinds": "x(interleaved)"}, det)
         for job, res, v in zip(jobs, results, verdicts):
-            sig = {"tr": job["tr"], "msg": job["msg"], "text_len_class": _len_class(job, res),
+            sig = {"tr": job["tr"], "deploy": job["deploy"], "msg": job["msg"], "text_len_class": _len_class(job, res),
                    "kinds": "+".join(c["k"] for c in job["script"])}
             det = {"script": job["script"], "exception": [job["cls"], job["text"][:200], len(job["text"]), job["argc"]],
-                   "logger_level": "DEBUG" if job["debug"] else "INFO", "client_events": res["events"],
+                   "deploy": job["deploy"], "logger_level": "DEBUG" if job["debug"] else "INFO", "client_events": res["events"],
                    "access_records": res["recs"], "record_details": res["details"], "server_errors": res["errs"],
                    "model": job["model"], "tlc": v}
             if res["hung"]:
